@@ -40,6 +40,10 @@ theorem CW.recvOpen (h : CW W t) (id : Nat) (b : Bool) : CW W (t.recvOpen id b).
   cw_by Streams.recvOpen
 macro_rules | `(tactic| cw_peel) => `(tactic| with_reducible apply CW.recvOpen)
 
+theorem CW.notifyPushIfRecvEnded (h : CW W t) (id : Nat) : CW W (t.notifyPushIfRecvEnded id) := by
+  cw_by Streams.notifyPushIfRecvEnded
+macro_rules | `(tactic| cw_peel) => `(tactic| with_reducible apply CW.notifyPushIfRecvEnded)
+
 set_option maxHeartbeats 800000 in
 theorem CW.recvRecvHeaders (h : CW W t) (id : Nat) (hd : HeadersIn) : CW W (t.recvRecvHeaders id hd).1 := by
   cw_by Streams.recvRecvHeaders
